@@ -16,6 +16,7 @@ import datetime
 import operator
 import os
 import tempfile
+import threading
 import typing as tp
 
 from automap import FrozenAutoMap  # pylint: disable = E0611
@@ -2270,6 +2271,9 @@ def array_from_element_method(*,
     return post
 
 #-------------------------------------------------------------------------------
+
+# Lazily updated caches (IndexGO, IndexHierarchy, ArrayGO) may be read from many threads (e.g. apply_pool(use_threads=True)); updates are serialized with a single re-entrant lock.
+CACHE_UPDATE_LOCK = threading.RLock()
 
 class PositionsAllocator:
     '''Resource for re-using a single array of contiguous ascending integers for common applications in IndexBase.
